@@ -1,0 +1,29 @@
+//go:build verif
+
+// Exports for the verification harness (/verif). Compiled only with -tags verif.
+package parser
+
+// VerifToken is one token returned by lexer.next(): its number and, for identifiers, the text
+// the lexer recorded.
+type VerifToken struct {
+	Tok  int
+	Text string
+}
+
+// VerifLex runs the lexer over data until it reports the end of the input.
+func VerifLex(data string) []VerifToken {
+	var l lexer
+	l.init(data)
+	var out []VerifToken
+	for {
+		t := l.next()
+		if t == tkEOF {
+			return out
+		}
+		vt := VerifToken{Tok: int(t)}
+		if t == tkIdentifier {
+			vt.Text = l.identifierStr()
+		}
+		out = append(out, vt)
+	}
+}
